@@ -58,6 +58,21 @@ fn degenerate(s: &mut Snap, t: St, p: usize) {
     }
 }
 
+/// put a large value (n elements / points / bytes) at position p of stack t
+fn enlarge(s: &mut Snap, t: St, p: usize, n: usize) {
+    match t {
+        St::Name if p < s.n.len() => s.n[p] = "n".repeat(n),
+        St::Code if p < s.c.len() => s.c[p] = SItem::List((0..n).map(|k| SItem::Int(k as i32)).collect()),
+        St::Exec if p < s.e.len() => s.e[p] = SItem::List((0..n).map(|k| SItem::Int(-(k as i32))).collect()),
+        St::BV if p < s.bv.len() => s.bv[p] = (0..n).map(|k| k % 3 == 0).collect(),
+        St::IV if p < s.iv.len() => s.iv[p] = (0..n as i32).collect(),
+        St::FV if p < s.fv.len() => s.fv[p] = (0..n).map(|k| fb(k as f32)).collect(),
+        St::Int if p < s.i.len() => s.i[p] = 1_000_000 + n as i32,
+        St::Float if p < s.f.len() => s.f[p] = fb(1.0e6 + n as f32),
+        _ => {}
+    }
+}
+
 fn multiset(s: &Snap, t: St) -> Vec<String> {
     let mut v: Vec<String> = match t {
         St::Bool => s.b.iter().map(|x| x.to_string()).collect(),
@@ -217,7 +232,11 @@ pub fn run(ctx: &mut Ctx) {
             continue;
         }
         // heavy tail: mostly 8..60, sometimes up to 300
-        let d = if r.chance(1, 5) { 60 + r.below(241) } else { 8 + r.below(53) };
+        let d = match r.below(10) {
+            0 | 1 => 60 + r.below(241),
+            2 | 3 => 1 + r.below(7),
+            _ => 8 + r.below(53),
+        };
         let idx: i32 = match r.below(6) {
             0 => d as i32 - 1,
             1 => d as i32,
@@ -241,6 +260,15 @@ pub fn run(ctx: &mut Ctx) {
         if r.chance(1, 3) {
             let p = if r.bool() { crate::frame::clamp(idx, d) } else { r.below(d) };
             degenerate(&mut s, t, p);
+        }
+        // ... or a LARGE value (a code item beyond max_points_in_program, a long vector / name)
+        if r.chance(1, 4) {
+            let p = match r.below(3) {
+                0 => 0,
+                1 => crate::frame::clamp(idx, d),
+                _ => r.below(d),
+            };
+            enlarge(&mut s, t, p, 101 + r.below(200));
         }
         if takes_index(op) {
             s.i.insert(0, idx);
